@@ -453,6 +453,9 @@ def execute(case):
                                 ck.bound(fro(lst[i] - refs[0]), 1e-12 * (gnorm + scaleL), "grad_api_value")
                         elif not refs:
                             ck.require(lst[i] is None, "grad_api_untracked", "grad_list returned a gradient for an untracked core")
+                        elif leaf not in used:
+                            ck.require(lst[i] is None or float(lst[i].abs().max()) == 0.0, "grad_api_unused_leaf",
+                                       "grad_list attributed a non-zero gradient to a core of a tensor the expression does not use")
     proper = any(0 < len(v) < d for k, v in case["tracked"].items() if k in used)
     ck.nontrivial = len(kinds) >= 2 and proper
     return ck.verdict()
